@@ -472,7 +472,26 @@ class KP:
         stmts = []
         while s.peek() != end and s.peek() is not None:
             if s.peek() == 'let':
-                s.eat(); name = s.eat(); s.eat('='); e = s.expr(); s.eat(';'); stmts.append(('let', name, e))
+                s.eat()
+                if s.peek() == 'mut': s.eat()
+                if s.peek() == '(':
+                    # `let (a, b) = (e1, e2);` = `let a = e1; let b = e2;` as long as no e_i mentions one of the names
+                    s.eat(); names = []
+                    while s.peek() != ')':
+                        if s.peek() == 'mut': s.eat()
+                        names.append(s.eat())
+                        if s.peek() == ',': s.eat()
+                    s.eat(')'); s.eat('='); e = s.expr(); s.eat(';')
+                    def mentions(x):
+                        if isinstance(x, tuple):
+                            if len(x) == 2 and x[0] == 'var': return x[1] in names
+                            return any(mentions(y) for y in x)
+                        if isinstance(x, list): return any(mentions(y) for y in x)
+                        return False
+                    if e[0] != 'tuple' or len(e[1]) != len(names) or mentions(e[1]): raise SyntaxError('tuple let')
+                    for n, x in zip(names, e[1]): stmts.append(('let', n, x))
+                else:
+                    name = s.eat(); s.eat('='); e = s.expr(); s.eat(';'); stmts.append(('let', name, e))
             elif s.peek() == 'unsafe' and s.peek(1) == '{':
                 s.eat(); s.eat('{'); inner = s.block('}'); s.eat('}')
                 if s.peek() == ';': s.eat()
@@ -519,7 +538,15 @@ class KP:
     def atom(s):
         t = s.eat()
         if t == '(':
-            e = s.expr(); s.eat(')'); return e
+            e = s.expr()
+            if s.peek() == ',':
+                es = [e]
+                while s.peek() == ',':
+                    s.eat()
+                    if s.peek() == ')': break
+                    es.append(s.expr())
+                s.eat(')'); return ('tuple', es)
+            s.eat(')'); return e
         if t == 'match':
             c = s.expr(); s.eat('{'); arms = {}
             for _ in range(2):
